@@ -1182,7 +1182,7 @@ func runQuery(b *backend, c *criteria, begin, end int, viaAPI bool) (logs []*typ
 			return
 		}
 		// the same criteria installed as a filter and polled twice (aqua_newFilter + aqua_getFilterLogs): every
-		// poll answers the whole query again. A poll that differs from GetLogs is returned as the result.
+		// poll answers the whole query again. A poll that differs from GetLogs is an error of its own.
 		id, ferr := b.api.NewFilter(crit)
 		if ferr != nil {
 			return // NewFilter refuses some bound combinations (e.g. from = latest with a numbered end) by design
@@ -1193,8 +1193,9 @@ func runQuery(b *backend, c *criteria, begin, end int, viaAPI bool) (logs []*typ
 			if e2 != nil {
 				return nil, fmt.Errorf("GetFilterLogs poll %d: %v", poll, e2), ""
 			}
-			if diffLogs(l2, logs) != "" {
-				return l2, nil, ""
+			if d := diffLogs(l2, logs); d != "" {
+				// one of the two answers is wrong whatever the expected result is
+				return logs, fmt.Errorf("GetFilterLogs poll %d differs from GetLogs for the same criteria (%s): GetLogs %v, GetFilterLogs %v", poll, d, logKeys(logs), logKeys(l2)), ""
 			}
 		}
 		return
